@@ -182,6 +182,16 @@ let run (ic : in_channel) (oc : out_channel) : unit =
        if line = "" || line.[0] = '#' then () else
        match fields line with
        | ["case"; id] -> w := init_world; Printf.fprintf oc "case %s\n" id
+       | ["om"; ls; occ] ->
+         let rest = Printf.sprintf "rq=0 | snap=%s | q=%s | api=%s | cache=%s | hash=same" (snap_tok !w) (queue_tok !w) (api_tok !w) (cache_tok !w) in
+         (match !w.w_ctl with
+          | None -> Printf.fprintf oc "res=0 | fx=- | %s\n" rest
+          | Some m ->
+            (match ordered_matching po lab m (labels_of_tok ls) (occ = "1") with
+             | Ok ps ->
+               let names = List.map (fun p -> match get_entry m p with Some c -> string_of_str c.cc_name | None -> "?") ps in
+               Printf.fprintf oc "res=1 | fx=order %s | %s\n" (join_or names "," "-") rest
+             | _ -> Printf.fprintf oc "res=2 | fx=order ERR | %s\n" rest))
        | f ->
          (match op_of_line f with
           | None -> Printf.fprintf oc "res=0 | fx=BADOP %s | rq=0 | snap=%s | q=%s | api=%s | cache=%s | hash=same\n"
